@@ -313,3 +313,25 @@ Proof.
   - destruct (p_decrypt_empty v) as [|n]; [left; reflexivity|]. apply N.eqb_eq in H2. subst. right; reflexivity.
   - destruct H2 as [->| ->]; reflexivity.
 Qed.
+
+(* ------------------------------------------------------------------ attachments *)
+Definition sum_yields (l : list att) : nat := fold_right (fun a k => (att_yields a + k)%nat) O l.
+
+Lemma att_run_enc pre a post :
+  existsb att_is_enc pre = false -> att_is_enc a = true ->
+  att_run (pre ++ a :: post) = ((sum_yields pre + att_yields a)%nat, true).
+Proof.
+  intros Hp Ha. induction pre as [|x pre IH].
+  - destruct a; try discriminate. reflexivity.
+  - cbn [existsb] in Hp. apply orb_false_iff in Hp as [Hx Hp]. specialize (IH Hp).
+    change (sum_yields (x :: pre)) with (att_yields x + sum_yields pre)%nat.
+    destruct x; try discriminate; cbn [app att_run]; rewrite IH; cbn [att_yields]; f_equal; lia.
+Qed.
+
+Lemma att_run_plain l : existsb att_is_enc l = false -> att_run l = (sum_yields l, false).
+Proof.
+  induction l as [|x l IH]; intro H; [reflexivity|].
+  cbn [existsb] in H. apply orb_false_iff in H as [Hx H]. specialize (IH H).
+  change (sum_yields (x :: l)) with (att_yields x + sum_yields l)%nat.
+  destruct x; try discriminate; cbn [att_run]; rewrite IH; reflexivity.
+Qed.
